@@ -585,9 +585,11 @@ fn run_task(j: &JobData, w: u8, sim: Option<Arc<Sim>>, record_sites: bool) -> Ta
         } else {
             Some(AnyComments::Single(Default::default()))
         };
+        // a host that deserialises the configuration per file is the plugin host: the configuration string goes
+        // to the plugin's entry function (the real plugin/src/lib.rs when it is compiled in)
         let opts = match &j.opts {
-            Some(o) => o.clone(),
-            None => parse_options(&j.task.options).expect("workload options must deserialize"),
+            Some(o) => pipeline::Config::Native(o.clone()),
+            None => pipeline::Config::Plugin(config_text(&j.task.options)),
         };
         GLOBALS.set(globals, || {
             pipeline::run_file(
@@ -639,7 +641,21 @@ pub struct SoloResult {
     pub residue: bool,
 }
 
+/// The option set "the host gave the plugin no configuration at all".
+pub const NO_CONFIG: &str = "<none>";
+
+pub fn config_text(options: &str) -> Option<String> {
+    if options == NO_CONFIG {
+        None
+    } else {
+        Some(options.to_string())
+    }
+}
+
 pub fn parse_options(json: &str) -> Result<Options, String> {
+    if json == NO_CONFIG {
+        return Ok(Options::default());
+    }
     // the same call as plugin/src/lib.rs:14
     serde_json::from_str::<Options>(json).map_err(|e| e.to_string())
 }
